@@ -36,6 +36,22 @@ Theorem eq_transitive : forall v, v_intv_guard v = true ->
 Proof. exact eqt_trans. Qed.
 Print Assumptions eq_transitive.
 
+(* PARTIAL statement that holds of the CURRENT code (both variants of IntervalProd.__eq__):
+   restricted to objects in which every interval product (also inside partitions, products,
+   unions ... at any depth) has the same number n of axes, == never raises and is an equivalence;
+   in fact its outcome does not depend on the variant at all. *)
+Theorem eq_outcome_independent_of_variant : forall n v v' (a b : obj R),
+  ndims_ok n a = true -> ndims_ok n b = true -> eqt v a b = eqt v' a b.
+Proof. exact eqt_variant_indep. Qed.
+Theorem eq_equivalence_current_partial : forall n (a b c : obj R),
+  ndims_ok n a = true -> ndims_ok n b = true -> ndims_ok n c = true ->
+  eqt current_variants a b <> EE /\
+  eqt current_variants a a = TT /\
+  eqt current_variants a b = eqt current_variants b a /\
+  (eqt current_variants a b = TT -> eqt current_variants b c = TT -> eqt current_variants a c = TT).
+Proof. exact current_eq_partial. Qed.
+Print Assumptions eq_equivalence_current_partial.
+
 (* ---------------------------------------------------------------- equal objects have equal hashes *)
 (* a == b implies that the hashed tuples are equivalent (position-wise for tuples, as sets
    for frozensets, by value for floats) -- hence hash(a) == hash(b) -- and that hash(a)
@@ -237,5 +253,6 @@ From Verif Require Import C20.FloatBytes.
 Theorem grid_hash_bytes_follow_float_eq : forall a b : PrimFloat.float,
   PrimFloat.eqb a b = true -> PrimFloat.add a PrimFloat.zero = PrimFloat.add b PrimFloat.zero.
 Proof. exact float_eq_same_bytes_after_plus_zero. Qed.
+Print Assumptions grid_hash_bytes_follow_float_eq.
 Theorem grid_hash_raw_bytes_refuted : exists a b : PrimFloat.float, PrimFloat.eqb a b = true /\ a <> b.
 Proof. exact float_eq_same_bytes_refuted. Qed.
